@@ -24,6 +24,8 @@ import (
 	"jetverif/core"
 
 	"github.com/CloudyKit/jet/v6"
+	"jetverif/checks/embedroot"
+
 	"github.com/CloudyKit/jet/v6/loaders/embedfs"
 	"github.com/CloudyKit/jet/v6/loaders/httpfs"
 	"github.com/CloudyKit/jet/v6/loaders/multi"
@@ -217,6 +219,9 @@ func universe(layers []c19Layer) []string {
 		files := l.Files
 		if l.Kind == "embed" {
 			files = c19EmbedModel
+			if l.Root%7 >= 5 {
+				files = embedroot.Model
+			}
 		}
 		for p := range files {
 			add(p)
@@ -288,7 +293,12 @@ func buildLayer(l c19Layer, tmpRoot string, idx int, chdir *string) (jet.Loader,
 		}
 		return m, l.Files, nil
 	case "embed":
-		root := []string{"testdata/embedtree", "testdata/embedtree/", "./testdata/embedtree", "testdata/./embedtree", "testdata/x/../embedtree"}[l.Root%5]
+		if l.Root%7 >= 5 {
+			// the file system of a package that embeds its own directory: the root is ".", names at the top
+			// level may begin with a dot
+			return embedfs.NewLoader([]string{".", "./"}[l.Root%7-5], embedroot.FS), embedroot.Model, nil
+		}
+		root := []string{"testdata/embedtree", "testdata/embedtree/", "./testdata/embedtree", "testdata/./embedtree", "testdata/x/../embedtree"}[l.Root%7]
 		return embedfs.NewLoader(root, c19Embedded), c19EmbedModel, nil
 	}
 	root := filepath.Join(tmpRoot, fmt.Sprintf("layer%d", idx))
@@ -534,6 +544,32 @@ func judgeC19(c c19Case) (v core.Verdict) {
 	inner.ClearLoaders()
 	if !check("multi wrapping a multi, after the inner one was cleared", outer, nil) {
 		return
+	}
+	// a path moves between the layers after Exists has answered and before Open is asked (no second Exists in
+	// between): Open still answers from the first loader, in construction order, that has the path then
+	front, back := jet.NewInMemLoader(), jet.NewInMemLoader()
+	moving := multi.NewLoader(front, back)
+	v.Label("edit-between-exists-and-open")
+	for _, q := range c.Queries {
+		back.Set(q, "BACK "+q)
+		if !moving.Exists(q) {
+			v.Failf("multi of two in-memory loaders: the second one holds %q but Exists says no", q)
+			return
+		}
+		front.Set(q, "FRONT "+q)
+		if got, err := readAll(moving, q); err != nil || got != "FRONT "+q {
+			v.Failf("multi of two in-memory loaders: Exists(%q) was answered by the second loader, then the first loader got the path too: Open must give the first loader's content, got %q, %v", q, got, err)
+			return
+		}
+		if !moving.Exists(q) {
+			v.Failf("multi of two in-memory loaders: both hold %q but Exists says no", q)
+			return
+		}
+		front.Delete(q)
+		if got, err := readAll(moving, q); err != nil || got != "BACK "+q {
+			v.Failf("multi of two in-memory loaders: Exists(%q) was answered by the first loader, which then lost the path: Open must give the second loader's content, got %q, %v", q, got, err)
+			return
+		}
 	}
 	v.NonTrivial = isDirOrLater
 	return
